@@ -234,6 +234,41 @@ def arena_seeds(nodes, root):
     return out
 
 
+def choice_probability(orc, seeds, table):
+    """possible-worlds semantics of exclusive groups, computed directly: pick exactly one choice per group (weight = its
+    probability) and a truth value per independent seed; sum the weights of the worlds in which `table` is true"""
+    groups = {}
+    indep = []
+    for i, s in enumerate(seeds):
+        if s[3] is None:
+            indep.append(i)
+        else:
+            groups.setdefault(s[3], []).append(i)
+    glist = [groups[g] for g in sorted(groups)]
+    tot = F(0)
+    for choice in itertools.product(*glist) if glist else [()]:
+        base = 0
+        wt = F(1)
+        for i in choice:
+            base |= 1 << i
+            wt *= F(seeds[i][1], seeds[i][2])
+        if wt == 0:
+            continue
+        for mask in range(1 << len(indep)):
+            idx = base
+            w = wt
+            for j, i in enumerate(indep):
+                p = F(seeds[i][1], seeds[i][2])
+                if mask >> j & 1:
+                    idx |= 1 << i
+                    w *= p
+                else:
+                    w *= 1 - p
+            if (table >> idx) & 1:
+                tot += w
+    return tot
+
+
 def truth_of(case, impl):
     """exact probability of the root, under the semantics of the snapshot (independent seeds; exclusive groups as
     annotated disjunctions when the formula refers to a member of a group)."""
@@ -244,8 +279,13 @@ def truth_of(case, impl):
     refs = arena_seeds(nodes, impl["root"])
     group_of = {s[0]: s[3] for s in case["seeds"]}
     ref_groups = {group_of[s] for s in refs if group_of.get(s) is not None}
-    if not ref_groups:
+    if not any(s[3] is not None for s in case["seeds"]):
         return orc, vals, orc.prob(table, orc.weights())
+    if not ref_groups:
+        flat = orc.prob(table, orc.weights())
+        truth = choice_probability(orc, case["seeds"], table)
+        assert flat == truth, "oracle self-check: unreferenced normalised groups must marginalise out"
+        return orc, vals, truth
     members = {g: [s[0] for s in case["seeds"] if s[3] == g] for g in ref_groups}
     rel = {s for g in ref_groups for s in members[g]}
     # exactly one member true per referenced group
@@ -259,7 +299,10 @@ def truth_of(case, impl):
                     t &= orc.full & ~orc.lit(m2)
             exactly |= t
         ok &= exactly
-    return orc, vals, orc.prob(table & ok, orc.weights(rel))
+    flat = orc.prob(table & ok, orc.weights(rel))          # the annotated-disjunction encoding (what the SDD counts)
+    truth = choice_probability(orc, case["seeds"], table)  # the possible-worlds semantics itself
+    assert flat == truth, "oracle self-check: encoding and possible-worlds semantics differ (group not normalised?)"
+    return orc, vals, truth
 
 
 # ---- canonical forms of results --------------------------------------------------------------------
@@ -458,7 +501,10 @@ def gen_cfg(rng, truth, den_exp=10, small_nodes=False):
 
 def quick_truth(seeds, ops, root):
     orc = Oracle(seeds)
-    return orc.prob(orc.ops_tables(ops)[root], orc.weights())
+    table = orc.ops_tables(ops)[root]
+    if any(s[3] is not None for s in seeds):
+        return choice_probability(orc, seeds, table)
+    return orc.prob(table, orc.weights())
 
 
 def gen_case(rng, kind):
@@ -480,6 +526,44 @@ def gen_case(rng, kind):
     elif kind == "nodes":
         seeds = gen_seeds(rng, rng.randint(1, 8), 16)
         ops, root = gen_ops(rng, seeds, rng.randint(1, 6), negation=rng.random() < 0.2)
+    elif kind == "exclneg":
+        # one or two normalised groups of 3-4 choices; the lineage mentions only SOME choices of each group (at least one
+        # choice of a referenced group is absent from the lineage) and negates literals of choices; a few independent seeds
+        den = 16
+        ng = rng.choice([1, 1, 2])
+        seeds, sid = [], 0
+        mentioned, lits_of = [], {}
+        for g in range(ng):
+            size = rng.choice([3, 3, 4])
+            cuts = sorted(rng.sample(range(1, den), size - 1))
+            parts = [b - a for a, b in zip([0] + cuts, cuts + [den])]
+            ids_g = []
+            for j in range(size):
+                seeds.append([sid, parts[j], den, 7 + g])
+                ids_g.append(sid)
+                sid += rng.choice([1, 1, 2])
+            mentioned += rng.sample(ids_g, rng.randint(1, size - 1))
+        for _ in range(rng.randint(0, 3)):
+            seeds.append([sid, rng.randint(1, den - 1), den, None])
+            mentioned.append(sid)
+            sid += 1
+        ops = []
+        for x in mentioned:
+            ops.append(["lit", x])
+            lits_of[x] = len(ops) + 1
+        pool = list(lits_of.values())
+        group_lits = [lits_of[x] for x in mentioned if any(sd[0] == x and sd[3] is not None for sd in seeds)]
+        for r in rng.sample(group_lits, rng.randint(1, len(group_lits))):
+            ops.append(["not", r])
+            pool.append(len(ops) + 1)
+        for _ in range(rng.randint(1, 5)):
+            args = [rng.choice(pool) for _ in range(rng.choice([2, 2, 3]))]
+            ops.append([rng.choice(["and", "or", "or"]), args])
+            pool.append(len(ops) + 1)
+            if rng.random() < 0.25:
+                ops.append(["not", len(ops) + 1])
+                pool.append(len(ops) + 1)
+        root = len(ops) + 1
     elif kind == "big":
         # the upper end of the stated scope: 10-12 seeds (12 x 4 bits: f64 arithmetic still exact)
         seeds = gen_seeds(rng, rng.randint(10, 12), 16)
@@ -570,17 +654,23 @@ def pick_ns(rng, lst, budget):
     return want
 
 
-def evaluate(ctx, binpath, cases, stream, nbudget=16, all_n=False):
+def evaluate(ctx, binpath, cases, stream, nbudget=16, all_n=False, by_kind=False):
     for c in cases:
         c.setdefault("max_n", 100000)
     impl = ctx.run_impl(binpath, cases)
     exprs, plan = [], []
-    nviol = nmis = 0
-    dist = {"status": {}, "reasons": {}, "evaluations": 0, "expiry_points": 0, "nontrivial": 0, "excl": 0, "neg": 0}
+    dists = {}
+
+    def dist_for(c):
+        key = stream + "_" + c["kind"] if by_kind else stream
+        return dists.setdefault(key, {"status": {}, "reasons": {}, "evaluations": 0, "expiry_points": 0, "nontrivial": 0,
+                                      "excl": 0, "neg": 0, "nviol": 0, "nmis": 0, "cases": 0})
     for ci, (c, im) in enumerate(zip(cases, impl)):
+        dist = dist_for(c)
+        dist["cases"] += 1
         if im is None or "panic" in im or "driver_died" in im:
             ctx.violation(c, {"what": "implementation panicked / died", "impl": im})
-            nviol += 1
+            dist["nviol"] += 1
             plan.append(None)
             continue
         if "seed_error" in im or "unexpired" not in im:
@@ -642,6 +732,7 @@ def evaluate(ctx, binpath, cases, stream, nbudget=16, all_n=False):
     for ci, (c, im) in enumerate(zip(cases, impl)):
         if plan[ci] is None:
             continue
+        dist = dist_for(c)
         ctx.count()
         ei, where = plan[ci]
         mo = model[ei]
@@ -726,7 +817,7 @@ def evaluate(ctx, binpath, cases, stream, nbudget=16, all_n=False):
         ctx.count(nev - 1)
         dist["evaluations"] += nev
         if bad:
-            nviol += 1
+            dist["nviol"] += 1
             clock = bad.pop("clock")
             cc = {k: c[k] for k in ("kind", "seeds", "ops", "root", "cfg", "exact")}
             cc["clock"] = clock
@@ -747,8 +838,21 @@ def evaluate(ctx, binpath, cases, stream, nbudget=16, all_n=False):
             mism = {"what": "metadata differs", "impl": im["meta"], "model": m_flags}
         if m_flags[2] != 1 and not mism:
             mism = {"what": "model arena is not well-formed (children must precede parents)"}
-        if not mism and abs(mq(m_exact) - truth) > 0:
-            mism = {"what": "the Spec probability computed in Coq differs from the Python oracle", "coq": str(mq(m_exact)), "python": str(truth)}
+        # ((z, n), (z', n'), cons) is printed with the first pair flattened
+        pz, pn, m_probx, m_constraints = m_exact
+        m_plan_value = (pz, pn)
+        if not mism and (mq(m_plan_value) != truth or mq(m_probx) != truth):
+            mism = {"what": "the probability computed in Coq (weighted count of the compile plan / Spec ProbX_node) differs from the Python oracle",
+                    "coq_plan": str(mq(m_plan_value)), "coq_spec": str(mq(m_probx)), "python": str(truth)}
+        # the exactly-one constraints of the plan range over all choices of every referenced group
+        group_of = {sd[0]: sd[3] for sd in c["seeds"]}
+        refs_now = arena_seeds(im["arena"]["nodes"], im["root"])
+        want_cons = [[sd[0] for sd in c["seeds"] if sd[3] == g] for g in sorted({group_of[x] for x in refs_now if group_of.get(x) is not None})]
+        if not mism and m_constraints != want_cons:
+            mism = {"what": "model plan constraints are not 'all choices of every referenced group'", "model": m_constraints, "want": want_cons}
+        if want_cons:
+            dist["excl_absent_choice"] = dist.get("excl_absent_choice", 0) + (1 if any(x not in refs_now for cs in want_cons for x in cs) else 0)
+            dist["excl_negated"] = dist.get("excl_negated", 0) + (1 if im["meta"]["neg"] else 0)
         soft = 0
         if not mism:
             for (name, n), mr in zip(where, m_res):
@@ -799,7 +903,7 @@ def evaluate(ctx, binpath, cases, stream, nbudget=16, all_n=False):
         if soft:
             ctx.stream(stream, float_divergences=soft)
         if mism and not bad:
-            nmis += 1
+            dist["nmis"] += 1
             ctx.broken("correspondence", stream, mism["what"] + " (the Spec oracle accepts the implementation's answers)",
                        {"case": {k: c[k] for k in ("kind", "seeds", "ops", "root", "cfg")}, "detail": mism})
         # coverage
@@ -810,9 +914,12 @@ def evaluate(ctx, binpath, cases, stream, nbudget=16, all_n=False):
             dist["nontrivial"] += 1
         dist["excl"] += 1 if im["meta"]["excl"] else 0
         dist["neg"] += 1 if im["meta"]["neg"] else 0
-    ctx.stream(stream, cases=len(cases), impl_model_mismatches=nmis, spec_violations=nviol,
-               evaluations=dist["evaluations"], expiry_points=dist["expiry_points"], nontrivial=dist["nontrivial"],
-               exclusive=dist["excl"], negated=dist["neg"], statuses=dist["status"], reasons=dist["reasons"])
+    for key, dist in dists.items():
+        ctx.stream(key, cases=dist["cases"], impl_model_mismatches=dist["nmis"], spec_violations=dist["nviol"],
+                   evaluations=dist["evaluations"], expiry_points=dist["expiry_points"], nontrivial=dist["nontrivial"],
+                   exclusive=dist["excl"], negated=dist["neg"], exclusive_with_absent_choice=dist.get("excl_absent_choice", 0),
+                   exclusive_negated=dist.get("excl_negated", 0), statuses=dist["status"], reasons=dist["reasons"])
+    ctx.log("stream %s: %d cases done" % (stream, len(cases)))
 
 
 # ---- end to end: Reasoner::infer_new_facts_with_hybrid --------------------------------------------------------
@@ -928,14 +1035,17 @@ def run(ctx):
                                         "the deadline expiring at every clock reading in three clock shapes" % (len(ex) // 128))
     # random streams
     mult = 6 if ctx.thorough else 1
-    for kind, n in (("mono", 120), ("wide", 40), ("neg", 40), ("excl", 40), ("nodes", 40), ("missing", 16), ("float", 40), ("big", 8)):
+    batch = []
+    for kind, n in (("mono", 120), ("wide", 40), ("neg", 40), ("excl", 30), ("exclneg", 30), ("nodes", 40), ("missing", 16), ("float", 40), ("big", 8)):
         cs = [gen_case(rng, kind) for _ in range(n * mult)]
         # a few explicit arbitrary (non-monotone) clocks
         for c in cs[: max(4, len(cs) // 4)]:
             vals = [0, 1, TB - 1, TB, TB + 1, SB, TB + SB, 3 * SB, 5]
             c["clocks"] = [[rng.choice(vals) for _ in range(rng.randint(1, 40))] for _ in range(3)]
-        ctx.sample({k: cs[0][k] for k in ("kind", "seeds", "ops", "root", "cfg")})
-        evaluate(ctx, binpath, cs, "random_" + kind, nbudget=12 if not ctx.thorough else 40)
+        ctx.sample({k: cs[0][k] for k in ("kind", "seeds", "ops", "root", "cfg")}, limit=12)
+        batch += cs
+    # one batch (one driver run, one sharded model run); the evidence keeps one stream record per kind
+    evaluate(ctx, binpath, batch, "random", nbudget=12 if not ctx.thorough else 40, by_kind=True)
     e2e = [gen_e2e(rng) for _ in range(30 * mult)]
     ctx.sample({k: e2e[0][k] for k in ("facts", "rules", "cfg")})
     evaluate_e2e(ctx, binpath, e2e, "end_to_end_reasoner")
